@@ -2,6 +2,7 @@ package checks
 
 import (
 	"fmt"
+	"strconv"
 	"strings"
 
 	"verif.local/pvmon/internal/asm"
@@ -211,6 +212,26 @@ func truthTable(k *h.Case, prog *spec.Program, leaves []*spec.Leaf, maxFull int,
 			doms = append(doms, dom{"v", name, []int{v - 1, v, v + 1}})
 		}
 	}
+	// leaves that test the same operand share one domain: the union of their value neighbourhoods
+	merged := doms[:0]
+	at := map[string]int{}
+	for _, d := range doms {
+		if i, ok := at[d.kind+"\x00"+d.name]; ok {
+			for _, v := range d.vals {
+				seen := false
+				for _, w := range merged[i].vals {
+					seen = seen || w == v
+				}
+				if !seen {
+					merged[i].vals = append(merged[i].vals, v)
+				}
+			}
+			continue
+		}
+		at[d.kind+"\x00"+d.name] = len(merged)
+		merged = append(merged, d)
+	}
+	doms = merged
 	total := 1
 	for _, d := range doms {
 		total *= len(d.vals)
@@ -370,11 +391,103 @@ func runC02(ctx *h.Ctx) int {
 			k.Sample("skeleton", spec.Source(prog))
 		}
 	})
+	// related tests: the leaves of one condition, and the arms of one if / elif chain, test the SAME few operands
+	// with related operators and values (== TRUE then == FALSE, < N then >= N, flag then !flag, the same test
+	// twice). Nothing may be merged, dropped or inverted on the strength of such a relation unless the outcome is
+	// the same for every value (a var may hold neither TRUE nor FALSE)
+	ctx.RunCases("related-tests", ctx.N(3000, 100000), func(k *h.Case) {
+		g := spec.NewGen(k.R, spec.Profile{})
+		names := map[string][]string{spec.LeafVar: {g.Name("VAR_R"), g.Name("VAR_R")}, spec.LeafFlag: {g.Name("FLAG_R"), g.Name("FLAG_R")}, spec.LeafDefeated: {g.Name("TRAINER_R")}}
+		kinds := []string{spec.LeafVar, spec.LeafVar, spec.LeafVar, spec.LeafFlag, spec.LeafFlag, spec.LeafDefeated}
+		if k.Index%3 == 0 {
+			kinds = []string{spec.LeafVar}
+			names[spec.LeafVar] = names[spec.LeafVar][:1]
+		}
+		base := 2 + k.R.IntN(5)
+		mkLeaf := func() spec.Cond {
+			kind := kinds[k.R.IntN(len(kinds))]
+			l := &spec.Leaf{ID: g.Prog.NewID(), Kind: kind, Operand: []string{names[kind][k.R.IntN(len(names[kind]))]}}
+			if kind == spec.LeafVar {
+				switch k.R.IntN(8) {
+				case 0:
+					l.Bang = k.R.IntN(2) == 0
+				case 1, 2:
+					l.Op = []string{"==", "!="}[k.R.IntN(2)]
+					l.Value = []string{[]string{"TRUE", "FALSE", "true", "false"}[k.R.IntN(4)]}
+				default:
+					l.Op = []string{"==", "!=", "<", "<=", ">", ">="}[k.R.IntN(6)]
+					l.Value = []string{strconv.Itoa(base + k.R.IntN(2))}
+				}
+			} else {
+				switch k.R.IntN(3) {
+				case 0:
+					l.Bang = k.R.IntN(2) == 0
+				default:
+					l.Op = []string{"==", "!="}[k.R.IntN(2)]
+					l.Value = []string{[]string{"TRUE", "FALSE", "true", "false"}[k.R.IntN(4)]}
+				}
+			}
+			return l
+		}
+		mkCond := func() spec.Cond {
+			switch k.R.IntN(6) {
+			case 0:
+				return &spec.And{Xs: []spec.Cond{mkLeaf(), mkLeaf()}}
+			case 1:
+				return &spec.Or{Xs: []spec.Cond{mkLeaf(), mkLeaf()}}
+			}
+			return mkLeaf()
+		}
+		blk := func(ss ...spec.Stmt) *spec.Block { return &spec.Block{ID: g.Prog.NewID(), Stmts: ss} }
+		var leaves []*spec.Leaf
+		var body []spec.Stmt
+		what := ""
+		if k.Index%2 == 0 {
+			n := 2 + k.R.IntN(3)
+			st := &spec.If{ID: g.Prog.NewID()}
+			for i := 0; i < n; i++ {
+				c := mkCond()
+				condLeaves(c, &leaves)
+				st.Arms = append(st.Arms, &spec.Arm{Cond: c, Body: blk(marker(g, fmt.Sprintf("arm%d", i)))})
+			}
+			if k.R.IntN(2) == 0 {
+				st.Else = blk(marker(g, "else"))
+			}
+			body = []spec.Stmt{st, marker(g, "after")}
+			if k.R.IntN(3) == 0 {
+				body = []spec.Stmt{st} // the chain is the last statement of the script
+			}
+			what = fmt.Sprintf("chain%d", n)
+		} else {
+			shs := enumShapes(2+k.R.IntN(2), 0)
+			sh := shs[k.R.IntN(len(shs))]
+			c := sh.build(mkLeaf)
+			condLeaves(c, &leaves)
+			switch k.R.IntN(3) {
+			case 0:
+				body = []spec.Stmt{&spec.If{ID: g.Prog.NewID(), Arms: []*spec.Arm{{Cond: c, Body: blk(marker(g, "yes"))}}, Else: blk(marker(g, "no"))}, marker(g, "after")}
+			case 1:
+				body = []spec.Stmt{&spec.While{ID: g.Prog.NewID(), Cond: c, Body: blk(marker(g, "body"))}, marker(g, "after")}
+			default:
+				body = []spec.Stmt{&spec.DoWhile{ID: g.Prog.NewID(), Body: blk(marker(g, "body")), Cond: c}, marker(g, "after")}
+			}
+			what = "tree" + sh.String()
+		}
+		g.Prog.Items = append(g.Prog.Items, &spec.Script{ID: g.Prog.NewID(), Name: g.Name("Scr"), Body: blk(body...)})
+		if checkCondProgram(k, g.Prog, leaves, 729, nil) {
+			k.Count("programs_with_related_tests", 1)
+			sig := what
+			for _, l := range leaves {
+				sig += fmt.Sprintf(" %s%v%s%s", l.Kind[:1], l.Bang, l.Op, strings.Join(l.Value, ""))
+			}
+			k.Nontrivial("related", sig)
+		}
+	})
 	ctx.Exhaustive("condition skeletons (and/or n-ary trees, negated groups, redundant parentheses around leaves for n<=3, negated groups around a single leaf / a negation / redundant parentheses for n<=2)", int64(len(all)),
 		fmt.Sprintf("every skeleton with 1..%d leaves, each with %d random leaf-form assignments and the complete truth table", maxN, reps))
 	rejectGuard(ctx, 0.05)
 	return ctx.Finish(
-		"one conditional construct (if/else, elif, while, do-while, if+end) per program around a condition tree; every leaf has its own operand; VM and reference run for the complete truth table (flag/defeated in {0,1}, var in {value-1,value,value+1}; sampled above 243 combinations); compared: sequence of tests (kind, operand, comparison value, raw/normal), commands, terminal. non-trivial = accepted program; distinct = distinct condition skeleton incl. leaf forms/operators",
+		"one conditional construct (if/else, elif, while, do-while, if+end) per program around a condition tree; every leaf has its own operand, except in the sub-check related-tests, where the leaves of a tree and the arms of an if/elif chain share one to five operands with related operators and values (domain of a shared operand = union of the neighbourhoods); VM and reference run for the complete truth table (flag/defeated in {0,1}, var in {value-1,value,value+1}; sampled above 243 combinations); compared: sequence of tests (kind, operand, comparison value, raw/normal), commands, terminal. non-trivial = accepted program; distinct = distinct condition skeleton incl. leaf forms/operators",
 		ctx.N(300, 3000),
 		[]string{"short-circuit left-to-right order is part of the property statement, so the order of tests is compared", "the operator sense of the emitted jump is free; only the outcome per assignment is compared"})
 }
